@@ -183,6 +183,9 @@ class Interp:
     def p_concatenate(self, e, *xs):
         return np.concatenate(xs, axis=e.params["dimension"])
 
+    def p_stack(self, e, *xs):
+        return np.stack(xs, axis=e.params["axis"])
+
     def p_pad(self, e, x, pv):
         cfg = e.params["padding_config"]
         assert all(i == 0 and lo >= 0 and hi >= 0 for lo, hi, i in cfg)
@@ -213,12 +216,19 @@ class Interp:
             out[i] = self.o.lift(i[d], P["dtype"]) if isf else int(i[d])
         return out
 
+    def p_empty(self, e, *dyn):
+        # jnp.empty: uninitialised memory = arbitrary values (fresh symbols); a result that is claimed must not depend on them
+        self.n_empty = getattr(self, "n_empty", 0) + 1
+        av = e.outvars[0].aval
+        return self.sym(f"empty{self.n_empty}", av.shape, av.dtype)
+
     def p_copy(self, e, x):
         return x
 
     p_copy_p = p_copy
     p_stop_gradient = p_copy
     p_optimization_barrier = lambda self, e, *xs: list(xs)
+    p_device_put = lambda self, e, *xs: list(xs)
     p_reduce_precision = p_copy
     p_real = p_copy
 
